@@ -88,6 +88,7 @@ func Run(step func(words []string, line string) string) {
 			line, obs = obs[:i], obs[i+1:]
 		}
 		fmt.Fprintf(w, "%s => %s\n", line, obs)
+		w.Flush() // line by line: if the process dies, the trace tells which op it was executing
 	}
 	w.Flush()
 	out.Close()
